@@ -39,11 +39,15 @@ def to_container(T, name):
         m = sp.csr_matrix((T.ravel().copy(), (r, c)), shape=T.shape)
         return m
     if name == "coo_dup":
-        # coo with every non-zero split in two exact halves (duplicates are summed by scipy)
+        # coo in which every second non-zero is stored as two entries, a quarter and three quarters of the value
+        # (exact in binary; duplicates are summed by scipy). Splitting only some entries, unevenly, matters: a matrix
+        # whose entries all lose the same fraction has the same stationary vector as the true one.
         r, c = np.nonzero(T)
-        v = T[r, c] / 2.0
-        return sp.coo_matrix((np.concatenate([v, v]), (np.concatenate([r, r]), np.concatenate([c, c]))),
-                             shape=T.shape)
+        v = T[r, c].astype(np.float64)
+        split = np.arange(len(v)) % 2 == 0
+        first = np.where(split, v * 0.25, v)
+        return sp.coo_matrix((np.concatenate([first, v[split] * 0.75]),
+                              (np.concatenate([r, r[split]]), np.concatenate([c, c[split]]))), shape=T.shape)
     if name == "csr_array":
         return sp.csr_array(T)
     if name == "coo_array":
